@@ -38,6 +38,7 @@ pub fn run(cfg: &RunCfg) -> Ctx {
     all.floor("enforce.min_is_header", 5);
     all.floor("enforce.min_is_configured", 5);
     all.floor("enforce.malformed_header", 5);
+    all.floor("enforce.zero_timeout", 5);
     all
 }
 
@@ -217,14 +218,27 @@ fn enforce_case(rng: &mut Rng, ctx: &mut Ctx) {
     let header_ms: Option<u64> = if rng.chance(3, 4) { Some(base + rng.below(3) * 37) } else { None };
     let server_ms: Option<u64> = if rng.chance(1, 2) { Some(base + rng.below(3) * 41) } else { None };
     let endpoint_ms: Option<u64> = if rng.chance(1, 3) { Some(base + rng.below(3) * 43) } else { None };
+    // the boundary value: a timeout of zero has elapsed at once (it is not "no timeout")
+    let (header_ms, server_ms, endpoint_ms) = if rng.chance(1, 10) {
+        ctx.count("enforce.zero_timeout");
+        match rng.below(3) {
+            0 => (Some(0), server_ms, endpoint_ms),
+            1 => (header_ms, Some(0), endpoint_ms),
+            _ => (header_ms, server_ms, Some(0)),
+        }
+    } else {
+        (header_ms, server_ms, endpoint_ms)
+    };
     // a malformed caller header must simply be ignored: the configured timeouts still apply
     let malformed: Option<&str> = if header_ms.is_none() && rng.chance(2, 3) { Some(*rng.pick(&["1.5S", "30", "S", "123456789S", "5s", "10 S", "+5S", "-1S", "1e3m", ""])) } else { None };
     let eff: Option<u64> = [header_ms, server_ms, endpoint_ms].iter().flatten().min().copied();
     let latency = match (eff, rng.below(5)) {
+        (Some(0), 0..=3) => base,
         (Some(e), 0) => e.saturating_sub(2),
         (Some(e), 1) => e + 2,
         (Some(e), 2) => e / 2,
         (Some(e), 3) => e * 2 + 5,
+        (Some(0), _) => base,
         (Some(e), _) => e.saturating_sub(1).max(1) + rng.below(3), // includes the tie, excluded from the verdict
         (None, _) => base,
     };
@@ -245,7 +259,7 @@ fn enforce_case(rng: &mut Rng, ctx: &mut Ctx) {
         max_frame: None,
         seed: rng.u64(),
         server_timeout: server_ms.map(Duration::from_millis),
-        endpoint_timeout: endpoint_ms.map(Duration::from_millis),
+        endpoint_timeout: endpoint_ms.map(Duration::from_millis), max_connection_age: None,
     };
     let case_json = json!({"shape": format!("{:?}", shape), "caller_timeout_ms": header_ms, "server_timeout_ms": server_ms, "endpoint_timeout_ms": endpoint_ms, "handler_latency_ms": latency, "effective_ms": eff, "malformed_caller_header": malformed});
     if malformed.is_some() {
